@@ -95,7 +95,7 @@ func Run(run *vh.Run) {
 			})
 		}
 	}
-	runJobs(jobs)
+	runJobs(run, jobs)
 
 	run.Rule = "Three monitors on the real context-based StateDB. (1) Generated sequences (5-60 steps) of every CStateDB mutator and of keeper writes made through GetCurrentContext() " +
 		"(bank send, ERC-20 allowance, delegate, undelegate, withdraw reward) over a pool of funded EOAs (two with delegations and accrued rewards), a contract with code+storage+balance, an existing empty account, fresh addresses and a module account, " +
@@ -150,7 +150,10 @@ func Run(run *vh.Run) {
 	}
 }
 
-func runJobs(jobs []func()) {
+// runJobs runs the worlds on a goroutine pool. A world that cannot go on (a set-up transaction
+// refused, a panic out of the application) makes the run inconclusive instead of crashing it, so
+// that violations recorded before - typically the cause - are still reported.
+func runJobs(run *vh.Run, jobs []func()) {
 	par := runtime.GOMAXPROCS(0)
 	if par > 16 {
 		par = 16
@@ -165,7 +168,19 @@ func runJobs(jobs []func()) {
 		go func() {
 			defer wg.Done()
 			for j := range ch {
-				j()
+				func() {
+					defer func() {
+						if r := recover(); r != nil {
+							msg := fmt.Sprint(r)
+							if len(msg) > 300 {
+								msg = msg[:300]
+							}
+							run.Count("worlds_stopped_early", 1)
+							run.Inconclusive("a world stopped early: " + strings.ReplaceAll(msg, "\n", " "))
+						}
+					}()
+					j()
+				}()
 			}
 		}()
 	}
